@@ -1454,6 +1454,15 @@ def int_to_double(I, t):
     2**(52+k) <= |t| < 2**(53+k), k = 1..11; larger magnitudes are cut"""
     if isinstance(t, int):
         return int(float(t)) if abs(t) < 2 ** 1000 else t
+    # exact on this path (lemma int_float_roundtrip)?  Keeps the div/mod terms out of the common case.
+    try:
+        lo, hi = I.int_bounds.get(t.get_id(), (None, None))
+    except Exception:
+        lo, hi = None, None
+    if lo is not None and hi is not None and lo >= -2 ** 53 and hi <= 2 ** 53:
+        return t
+    if not I.feasible(Or(t > 2 ** 53, t < -2 ** 53)):
+        return t
     I.cut(And(t >= -2 ** 64, t <= 2 ** 64), "int -> float conversion modelled for |n| <= 2**64 (exact up to 2**53, round-half-even above)")
     a = If(t >= 0, t, -t)
     r = a
